@@ -1,8 +1,8 @@
 (* C06 — Block execution is deterministic and header commitments equal stored state.
    Property theorems only: each is closed by [exact <lemma>] (or a computation for witnesses) and followed
-   by [Print Assumptions].  Model: Model/C06.v   Lemmas: Proofs/C06_Acc.v, Proofs/C06_Db.v, Proofs/C06.v *)
+   by [Print Assumptions].  Model: Model/C06.v   Lemmas: Proofs/C06_Acc.v, Proofs/C06_Db.v, Proofs/C06.v, Proofs/C06_Sto.v *)
 From Coq Require Import List NArith ZArith Bool Permutation Lia.
-From GQ Require Import Model.C06 Proofs.C06_Acc Proofs.C06_Db Proofs.C06.
+From GQ Require Import Model.C06 Proofs.C06_Acc Proofs.C06_Db Proofs.C06 Proofs.C06_Sto.
 Import ListNotations.
 Local Open Scope N_scope.
 
@@ -264,3 +264,42 @@ Example repaired_nonvacuous :
   exists s' tr, finalize AfterOps f5_s f5_ops f5_cands = Some (s', tr)
     /\ tr = [] /\ s_db s' = [(2, 20)] /\ s_size s' = 1 /\ commit_ok s' = true.
 Proof. eexists _, _. split; [vm_compute; reflexivity|]. repeat split; vm_compute; reflexivity. Qed.
+
+(* ---- 6. state commitments do not depend on the snapshot configuration / cache warmth ---- *)
+
+(* One block on one account: any sequence of SLOADs, SSTOREs and re-creations of the account (CreateAccount over
+   the existing or self-destructed object) followed by the single updateTrie of IntermediateRoot.  Whether
+   state.New found a snapshot layer for the parent root (words read from the layer, zero word for an account
+   destructed in this block), found one whose reads fail because the generator is still running after a restart
+   (fall back to the trie), or found none (words read from the trie): the storage content committed, the account's
+   Size field and every word the EVM read are the same.  [p] = storage of the account in the parent state, which
+   is also what the layer holds for it; [sz] = its Size there. *)
+Theorem storage_commitment_independent_of_snapshot_layer : forall src p sz pre,
+  forallb not_root pre = true ->
+  sto_block src p sz (pre ++ [SRoot]) = sto_block NoSnap p sz (pre ++ [SRoot]).
+Proof. exact sto_block_source_independent. Qed.
+Print Assumptions storage_commitment_independent_of_snapshot_layer.
+
+(* deployment at a pre-existing account with storage, old slots overwritten, a fresh slot set and cleared again *)
+Example storage_independent_nonvacuous :
+  let p := [(1, 9); (2, 8)] in
+  let pre := [SGet 1; SSet 3 4; SCreate true; SSet 1 5; SSet 2 6; SGet 3; SSet 3 7; SSet 3 0; SGet 9] in
+  forallb not_root pre = true
+  /\ sto_block SnapLayer p 2%Z (pre ++ [SRoot]) = ([(1, 5); (2, 6)], 4%Z, [9; 0; 0])
+  /\ sto_block SnapFails p 2%Z (pre ++ [SRoot]) = ([(1, 5); (2, 6)], 4%Z, [9; 0; 0])
+  /\ sto_block NoSnap p 2%Z (pre ++ [SRoot]) = ([(1, 5); (2, 6)], 4%Z, [9; 0; 0]).
+Proof. repeat split; vm_compute; reflexivity. Qed.
+
+(* The hypothesis "one updateTrie per StateDB" is needed by the code as it is: with a second IntermediateRoot
+   in the lifetime of the same StateDB the Size of a re-created account depends on the layer (the destructed
+   early return of GetCommittedState does not cache the zero word in originStorage; after uniqueNewKeysStorage was
+   reset the slot is probed and counted again, while the run without a layer answers from originStorage and does
+   not count it).  Process / ValidateState / the worker call IntermediateRoot once, after the last transaction;
+   the harness replays this witness on the real StateDB (storage corpus, kind "two-epochs").
+   Full statement (refuted): forall src p sz ops, sto_block src p sz ops = sto_block NoSnap p sz ops. *)
+Theorem storage_second_update_depends_on_layer_refuted :
+  exists p sz ops, sto_block SnapLayer p sz ops <> sto_block NoSnap p sz ops.
+Proof.
+  exists [], 0%Z, two_epoch_ops. destruct sto_two_epochs_differ as (A & B). rewrite A, B. discriminate.
+Qed.
+Print Assumptions storage_second_update_depends_on_layer_refuted.
